@@ -24,7 +24,7 @@ import subprocess
 import glob
 from concurrent.futures import ThreadPoolExecutor
 
-from lib.common import (InfraError, NCPU, REPO, VERIF, findings_for, log, sha, sh, tlc)
+from lib.common import (InfraError, NCPU, REPO, VERIF, findings_for, load_findings, log, sha, sh, tlc)
 
 PROP = "C09"
 HOOK_PATCH = os.path.join(VERIF, "hooks", "h6-parser-progress.patch")
@@ -379,8 +379,8 @@ def run(ctx):
         if it[0] not in seen:
             seen.add(it[0])
             items.append(it)
-    # findings' witnesses are always part of the run
-    for f in findings:
+    # the witnesses of all listed findings, fixed ones included (regression inputs), are always part of the run
+    for f in [x for x in load_findings() if PROP in x.get("properties", [])]:
         w = f.get("match", {}).get("witness_input")
         if w and w.encode() not in seen:
             seen.add(w.encode())
